@@ -705,6 +705,11 @@ func c13FKCheck(e *Env, viol func(kind, sig, what, check string, rep any), mu *s
 		{"a violation in another table at the same rowid and parent, other constraint position", []string{"INSERT INTO a VALUES (1, 99)"}, []string{"INSERT INTO c VALUES (1, NULL, 99)"}, true},
 		{"a violation in another table, the file adds none", []string{"INSERT INTO a VALUES (1, 99)"}, []string{"INSERT INTO b VALUES (1, 1)", "INSERT INTO c VALUES (1, NULL, 1)"}, false},
 		{"a violation in another table at the same rowid, the file adds one after a good statement", []string{"INSERT INTO a VALUES (2, 77)"}, []string{"INSERT INTO b VALUES (1, 1)", "INSERT INTO b VALUES (2, 77)"}, true},
+		// as many (or more) old violations go away as new ones come: the new one is new all the same
+		{"the file deletes the row of a known violation and adds a violation elsewhere", []string{"INSERT INTO a VALUES (1, 99)"}, []string{"DELETE FROM a WHERE id = 1", "INSERT INTO b VALUES (5, 98)"}, true},
+		{"the file repairs a known violation (parent inserted) and adds a violation elsewhere", []string{"INSERT INTO a VALUES (1, 99)"}, []string{"INSERT INTO p VALUES (99)", "INSERT INTO b VALUES (5, 98)"}, true},
+		{"the file deletes two known violations and adds one", []string{"INSERT INTO a VALUES (1, 99)", "INSERT INTO a VALUES (2, 98)"}, []string{"DELETE FROM a", "INSERT INTO c VALUES (7, NULL, 97)"}, true},
+		{"the file deletes the row of a known violation and adds none", []string{"INSERT INTO a VALUES (1, 99)"}, []string{"DELETE FROM a WHERE id = 1", "INSERT INTO b VALUES (5, 1)"}, false},
 	}
 	for ci, c := range cases {
 		for _, mode := range []string{"file", "all"} {
